@@ -8,8 +8,9 @@ The second pass (`HeaderCollection::iter`) re-parses each header and hands out s
 * `RangeIterator<T>` / `CountIterator<T>`: `T::read` until the cursor is exhausted
   (`index.saturating_add(1)`; the `remaining` field only feeds `size_hint`);
 * `BitIterator` / `DoubleBitIterator`: `pos < count`, guarded `index += 1`;
-* `RangedBytesIterator`: `remaining`, **unguarded** `self.index += 1` (u16) after every item —
-  in a build with overflow checks this panics when the item just read has index 65535 (D2);
+* `RangedBytesIterator`: `remaining`, `self.index += 1` (u16) guarded by `remaining > 0` after the
+  decrement, i.e. only when another item follows (the repair of D2; before it the increment was
+  unguarded and overflowed after the item with index 65535);
 * `PrefixedBytesIterator`, and `CountIterator<Prefix<I, V>>` for fixed-size prefixed objects.
 
 Arithmetic that can panic in the Rust (`+= 1` on a `u16`) is modelled with `Except Panic`.
@@ -84,11 +85,16 @@ def iterRangedBytes (size : Nat) (data : List Nat) (index remaining : Nat) : Exc
     match take? size data with
     | none => .ok []
     | some (b, rest) =>
-      -- `self.index += 1` (u16, unguarded)
-      if index ≥ 65535 then .error .addOverflow else
-      match iterRangedBytes size rest (index + 1) rem with
-      | .error e => .error e
-      | .ok items => .ok (⟨some index, b⟩ :: items)
+      -- `self.remaining -= 1; if self.remaining > 0 { self.index += 1 }` (u16, guarded)
+      if 0 < rem then
+        if index ≥ 65535 then .error .addOverflow else
+        match iterRangedBytes size rest (index + 1) rem with
+        | .error e => .error e
+        | .ok items => .ok (⟨some index, b⟩ :: items)
+      else
+        match iterRangedBytes size rest index rem with
+        | .error e => .error e
+        | .ok items => .ok (⟨some index, b⟩ :: items)
 
 /-- `PrefixedBytesIterator::next`, iterated: item octets = prefix ++ data -/
 def iterPrefixedBytes (wide : Bool) (size : Nat) (data : List Nat) (remaining : Nat) : List Item :=
